@@ -353,6 +353,8 @@ type matrixCase struct {
 	Instant bool      `json:"instant"`
 	FromS   int64     `json:"from_s"` // instant: time_s - 300
 	ToS     int64     `json:"to_s"`
+	FromMs  int64     `json:"from_ms,omitempty"` // millisecond part of the start (0..999)
+	ToMs    int64     `json:"to_ms,omitempty"`   // millisecond part of the end / of the instant
 	StepMs  int64     `json:"step_ms"`
 	RangeS  int64     `json:"range_s"`
 	Series  []mSeries `json:"series"`
@@ -373,34 +375,59 @@ func genFloat(rt *rapid.T) string {
 	return rapid.SampledFrom(floatPool).Draw(rt, "fv")
 }
 
+// window is the [from, to] the service works with, in ns. The range route reads start/end
+// as decimal floats (getRequiredFloat, queryRangeController.go:39) and converts them to
+// int64: nanosecond values around 1.7e18 are rounded to a multiple of 256 ns on the way in.
+// The instant route reads `time` as an integer and subtracts 300 s.
+func (c matrixCase) window() (int64, int64) {
+	from, to := c.FromS*1e9+c.FromMs*1e6, c.ToS*1e9+c.ToMs*1e6
+	if c.Instant {
+		return to - 300e9, to
+	}
+	return int64(float64(from)), int64(float64(to))
+}
+
 func genMatrix(rt *rapid.T) matrixCase {
 	c := matrixCase{Instant: rapid.IntRange(0, 3).Draw(rt, "instant") == 0}
 	c.RangeS = rapid.SampledFrom([]int64{1, 5, 15, 60}).Draw(rt, "range")
 	if c.Instant {
-		// whole-second steps: the instant writer prints whole seconds (queryRangeService.go:468)
-		c.StepMs = 1000 * rapid.SampledFrom([]int64{1, 2, 5, 15, 60, 300}).Draw(rt, "step")
+		// window = 300 s: steps below 28 ms exceed the 11,000 points limit
+		c.StepMs = rapid.SampledFrom([]int64{50, 125, 250, 1000, 2000, 5000, 15000, 60000, 300000}).Draw(rt, "step")
 		c.ToS = rapid.SampledFrom([]int64{1700000000, 1700000007, 86400 * 3}).Draw(rt, "time")
-		c.FromS = c.ToS - 300 // QueryInstant: timeNs-300000000000 (queryRangeService.go:399)
+		if rapid.Bool().Draw(rt, "timems") {
+			c.ToMs = int64(rapid.IntRange(0, 999).Draw(rt, "toms"))
+		}
+		c.FromS, c.FromMs = c.ToS-300, c.ToMs // QueryInstant: timeNs-300000000000
 	} else {
-		switch rapid.IntRange(0, 3).Draw(rt, "stepkind") {
+		switch rapid.IntRange(0, 4).Draw(rt, "stepkind") {
 		case 0:
 			c.StepMs = c.RangeS * 1000
 		case 1:
 			c.StepMs = rapid.SampledFrom([]int64{100, 250, 700, 1000, 1500}).Draw(rt, "stepsmall")
+		case 2:
+			c.StepMs = rapid.SampledFrom([]int64{1, 10, 50, 125}).Draw(rt, "steptiny") // instants like N.001, N.050, N.099
 		default:
 			c.StepMs = 1000 * rapid.SampledFrom([]int64{1, 2, 5, 15, 30, 60, 120}).Draw(rt, "step")
 		}
 		c.FromS = rapid.SampledFrom([]int64{0, 600, 1700000000, 1700000040}).Draw(rt, "from") + int64(rapid.IntRange(0, 7).Draw(rt, "fromoff"))
+		if rapid.Bool().Draw(rt, "fromms") {
+			c.FromMs = int64(rapid.SampledFrom([]int{1, 7, 50, 99, 100, 999}).Draw(rt, "frommspool"))
+			if rapid.Bool().Draw(rt, "frommsany") {
+				c.FromMs = int64(rapid.IntRange(0, 999).Draw(rt, "fromms2"))
+			}
+		}
 		slots := int64(rapid.IntRange(0, 260).Draw(rt, "slots"))
-		c.ToS = c.FromS + slots*c.StepMs/1000
+		toMs := c.FromS*1000 + c.FromMs + slots*c.StepMs
+		c.ToS, c.ToMs = toMs/1000, toMs%1000
 	}
+	fromNs, toNs := c.window()
 	dNs := c.RangeS * 1e9
 	aNs := dNs
 	if dNs < c.StepMs*1e6 {
 		aNs = c.StepMs * 1e6
 	}
-	lo := (c.FromS * 1e9 / dNs * dNs) / aNs
-	hi := ((c.ToS*1e9/dNs*dNs + dNs) - 1) / aNs
+	lo := (fromNs / dNs * dNs) / aNs
+	hi := ((toNs/dNs*dNs + dNs) - 1) / aNs
 	if hi < lo {
 		hi = lo
 	}
@@ -505,6 +532,9 @@ type lokiMatrixDoc struct {
 	} `json:"data"`
 }
 
+// msOf rounds nanoseconds to the nearest millisecond.
+func msOf(ns int64) int64 { return int64(math.Round(float64(ns) / 1e6)) }
+
 func sameFloat(a, b float64) bool {
 	if math.IsNaN(a) || math.IsNaN(b) {
 		return math.IsNaN(a) && math.IsNaN(b)
@@ -528,8 +558,9 @@ func checkPoint(pair []any, want point, instant bool) error {
 	if err != nil {
 		return fmt.Errorf("timestamp %q: %v", tsn, err)
 	}
-	// timestamps are whole milliseconds (from in seconds + i*step in milliseconds)
-	if math.Round(tf*1000) != float64(want.ts/1e6) {
+	// compared numerically at millisecond resolution (N.50 is not N.050); the expected
+	// instant may be off a whole millisecond by the < 256 ns of the float start
+	if int64(math.Round(tf*1000)) != msOf(want.ts) {
 		return fmt.Errorf("timestamp %s does not render %d ns", tsn, want.ts)
 	}
 	v, err := strconv.ParseFloat(vs, 64)
@@ -543,7 +574,8 @@ func checkPoint(pair []any, want point, instant bool) error {
 }
 
 func predMatrix(c matrixCase, o *evid.Obs) error {
-	if c.StepMs <= 0 || c.ToS < c.FromS || c.RangeS <= 0 {
+	fromNs, toNs := c.window()
+	if c.StepMs <= 0 || toNs < fromNs || c.RangeS <= 0 || c.FromMs < 0 || c.FromMs > 999 || c.ToMs < 0 || c.ToMs > 999 {
 		o.Discard("outside-domain") // C12's territory
 		return nil
 	}
@@ -573,11 +605,11 @@ func predMatrix(c matrixCase, o *evid.Obs) error {
 	target := "/loki/api/v1/query_range?"
 	if c.Instant {
 		target = "/loki/api/v1/query?"
-		q.Set("time", strconv.FormatInt(c.ToS*1e9, 10))
+		q.Set("time", strconv.FormatInt(c.ToS*1e9+c.ToMs*1e6, 10))
 		o.Tag("endpoint:query")
 	} else {
-		q.Set("start", strconv.FormatInt(c.FromS*1e9, 10))
-		q.Set("end", strconv.FormatInt(c.ToS*1e9, 10))
+		q.Set("start", strconv.FormatInt(c.FromS*1e9+c.FromMs*1e6, 10))
+		q.Set("end", strconv.FormatInt(c.ToS*1e9+c.ToMs*1e6, 10))
 		o.Tag("endpoint:query_range")
 	}
 	resp, stmts := run(target+q.Encode(), func(i int, _ string) *fakesql.Result {
@@ -595,8 +627,9 @@ func predMatrix(c matrixCase, o *evid.Obs) error {
 	}
 	var want []exp
 	npts := 0
+	smallMs, anyMs := false, false
 	for _, s := range c.Series {
-		pts, err := resample(s.Rows, c.FromS*1e9, c.ToS*1e9, c.StepMs*1e6, c.RangeS*1e9)
+		pts, err := resample(s.Rows, fromNs, toNs, c.StepMs*1e6, c.RangeS*1e9)
 		if err != nil {
 			return fmt.Errorf("harness: %v", err)
 		}
@@ -607,6 +640,13 @@ func predMatrix(c matrixCase, o *evid.Obs) error {
 			pts = pts[len(pts)-1:]
 		}
 		npts += len(pts)
+		for _, p := range pts {
+			if m := msOf(p.ts) % 1000; m >= 1 && m <= 99 {
+				smallMs = true
+			} else if m != 0 {
+				anyMs = true
+			}
+		}
 		want = append(want, exp{s.FP, mapKey(normMap(s.Labels)), pts})
 	}
 	o.Tag(fmt.Sprintf("series:%d", min(len(c.Series), 3)), fmt.Sprintf("reported-series:%d", min(len(want), 3)), "rows:"+bucket(total), "points:"+bucket(npts))
@@ -622,7 +662,12 @@ func predMatrix(c matrixCase, o *evid.Obs) error {
 	if esc {
 		o.Tag("needs-escape")
 	}
-	if (len(want) >= 2 && bi) || (esc && len(want) > 0) {
+	if smallMs {
+		o.Tag("instant-ms-part:1-99")
+	} else if anyMs {
+		o.Tag("instant-ms-part:100-999")
+	}
+	if (len(want) >= 2 && bi) || (esc && len(want) > 0) || smallMs {
 		o.NonTrivial()
 	}
 
@@ -699,7 +744,7 @@ func predMatrix(c matrixCase, o *evid.Obs) error {
 			return fmt.Errorf("series fp=%d: malformed sample %v", w.fp, pair)
 		}
 		for _, p := range w.pts {
-			pair, ok := byMs[p.ts/1e6]
+			pair, ok := byMs[msOf(p.ts)]
 			if !ok {
 				return fmt.Errorf("series fp=%d: no sample at %d ns; body=%s", w.fp, p.ts, clip(resp.Body))
 			}
